@@ -32,6 +32,7 @@ func init() {
 	r6Wrap("C16", r6DressedReader)
 	r6Wrap("C11", r6C11)
 	r6Wrap("C06", r6C06)
+	r6Wrap("C15", r6C15)
 	r6Wrap("C16", r6C16W)
 	r6Wrap("C18", r6C18)
 	r6Wrap("C12", r6C12)
@@ -348,6 +349,40 @@ func r6C18(c *ctx) {
 					}
 					runW18(c, cfg, "w3/1,fl", "-", mode, p.state|4, 1, h2)
 				}
+			}
+		}
+	}
+}
+
+// r6-C15b: resources that grow with the NUMBER of frames in the peer's stream. A message made of a million EMPTY
+// non-final fragments (2 bytes each from a server, 6 from a client: a few megabytes on the wire) and as many empty
+// pings / pongs between two fragments must be read in constant stack; run in a child process with the goroutine stack
+// capped at 4 MB, so recursion per frame ends in the runtime's fatal stack overflow ("crash")
+func r6C15(c *ctx) {
+	count := 300000
+	if c.thor {
+		count = 2000000
+	}
+	for _, side := range []int{1, 2} {
+		fr := func(b0 byte, payload []byte) []byte { // a frame as the PEER of side sends it
+			f := sframe{fin: b0&0x80 != 0, op: b0 & 0x0f, payload: payload}
+			if side == 1 {
+				f.masked = true
+				f.key = [4]byte{1, 2, 3, 4}
+			}
+			return f.wire()
+		}
+		for _, e := range []string{"xr", "xm"} {
+			entry := e + strconv.Itoa(side)
+			// empty continuation fragments
+			fzx(c, entry, fzRep(fr(0x01, []byte("ab")), fr(0x00, nil), count, fr(0x80, []byte("c"))))
+			// one-byte fragments
+			fzx(c, entry, fzRep(fr(0x02, nil), fr(0x00, []byte("x")), count/4, fr(0x80, nil)))
+			// empty pings and pongs between two fragments
+			fzx(c, entry, fzRep(fr(0x01, []byte("ab")), append(fr(0x89, nil), fr(0x8a, nil)...), count/2, fr(0x80, []byte("c"))))
+			// empty unfragmented messages one after the other
+			if e == "xr" {
+				fzx(c, entry, fzRep(nil, fr(0x82, nil), count, nil))
 			}
 		}
 	}
